@@ -158,8 +158,9 @@ def cmd_harmless_run(sid, props=None):
         return
     res = {}
     try:
-        rct, outt = sh([PY, '-m', 'pytest', '-q', '-p', 'no:cacheprovider', '-x'], cwd=REPO, env={'PYTHONDONTWRITEBYTECODE': '1'})
-        m['suite_rc'] = rct
+        if os.environ.get('HARMLESS_RUN_SUITE'):
+            rct, outt = sh([PY, '-m', 'pytest', '-q', '-p', 'no:cacheprovider', '-x'], cwd=REPO, env={'PYTHONDONTWRITEBYTECODE': '1'})
+            m['suite_rc'] = rct
         outdir = tempfile.mkdtemp(prefix='harmrun_', dir='/tmp')
         procs = {}
         for p in (props or ALL_PROPS):
